@@ -10,19 +10,34 @@ def run(rep: Report, repo: Repo, tier: str) -> None:
     rep.assume("reference token languages transcribed from cmake-language(7) (CMake 3.25), legacy unquoted forms excluded as the "
                "property states; bracket levels beyond the bound are not compared",
                "maximal-munch interplay between token rules is not decided; only per-rule language equality")
-    misc_rules.rule_decode(rep, repo, "C05-R1")
-    atn_rules.rule_token_languages(rep, repo, "C05-R2", tier)
-    atn_rules.rule_skipped_tokens(rep, repo, "C05-R2c", tier)
-    atn_rules.rule_parser_languages(rep, repo, "C05-R3")
-    atn_rules.rule_generated_guards(rep, repo, "C05-R4")
-    protocol.rule_no_crash(rep, repo, "C05-R5")
-    tables.rule_dispatch_signatures(rep, repo, "C05-R5s")
-    misc_rules.rule_runtime_pin(rep, repo, "C05-R6")
+    with rep.isolated():
+        misc_rules.rule_decode(rep, repo, "C05-R1")
+    with rep.isolated():
+        atn_rules.rule_token_languages(rep, repo, "C05-R2", tier)
+    with rep.isolated():
+        atn_rules.rule_skipped_tokens(rep, repo, "C05-R2c", tier)
+    with rep.isolated():
+        atn_rules.rule_parser_languages(rep, repo, "C05-R3")
+    with rep.isolated():
+        atn_rules.rule_generated_guards(rep, repo, "C05-R4")
+    with rep.isolated():
+        protocol.rule_no_crash(rep, repo, "C05-R5")
+    with rep.isolated():
+        tables.rule_dispatch_signatures(rep, repo, "C05-R5s")
+    with rep.isolated():
+        misc_rules.rule_runtime_pin(rep, repo, "C05-R6")
     # CMake command names are case-insensitive: FUNCTION() and function() are the same invocation
-    misc_rules.rule_case_folding(rep, repo, "C05-R7")
-    misc_rules.rule_no_partial_ops(rep, repo, "C05-R8")
+    with rep.isolated():
+        misc_rules.rule_case_folding(rep, repo, "C05-R7")
+    with rep.isolated():
+        misc_rules.rule_no_partial_ops(rep, repo, "C05-R8")
     # "processed to completion without error": rendering is total, and the listener raises only on the current command's arguments
     from . import render
-    render.rule_render_total(rep, repo, "C05-R9")
-    protocol.rule_raise_census(rep, repo, "C05-R10")
-    protocol.rule_rejections(rep, repo, "C05-R11")
+    with rep.isolated():
+        render.rule_render_total(rep, repo, "C05-R9")
+    with rep.isolated():
+        protocol.rule_raise_census(rep, repo, "C05-R10")
+    with rep.isolated():
+        protocol.rule_rejections(rep, repo, "C05-R11")
+    with rep.isolated():
+        protocol.rule_accepted_arities(rep, repo, "C05-R12")
